@@ -38,19 +38,33 @@ def _env(tier, real=False, seed=0):
     return e
 
 
+_PROCS = set()
+_STOP = False
+
+
 def _worker(modname, tier, seed, name, timeout):
     t0 = time.time()
     wall_cap = timeout * 2.5 + 90
+    if _STOP:
+        return dict(name=name, status="skipped", message="fail-fast: stopped after the first reproduced violation")
     try:
-        p = subprocess.run(
-            [PY, "-m", "kit.xworker", modname, name, str(timeout)],
-            cwd=VERIF, env=_env(tier, seed=seed), capture_output=True, text=True, timeout=wall_cap,
-        )
-        out = p.stdout
+        p = subprocess.Popen([PY, "-m", "kit.xworker", modname, name, str(timeout)], cwd=VERIF, env=_env(tier, seed=seed),
+                             stdout=subprocess.PIPE, stderr=subprocess.PIPE, text=True)
+        _PROCS.add(p)
+        try:
+            out, err = p.communicate(timeout=wall_cap)
+        except subprocess.TimeoutExpired:
+            p.kill()
+            p.communicate()
+            raise
+        finally:
+            _PROCS.discard(p)
+        if _STOP:
+            return dict(name=name, status="skipped", message="fail-fast: stopped after the first reproduced violation")
         line = [l for l in out.splitlines() if l.startswith("XRESULT ")]
         if not line:
             return dict(name=name, status="error", message="worker produced no result (rc=%s)" % p.returncode,
-                        traceback=(p.stderr or "")[-3000:], wall_s=round(time.time() - t0, 2))
+                        traceback=(err or "")[-3000:], wall_s=round(time.time() - t0, 2))
         res = json.loads(line[-1][8:])
         res.setdefault("wall_s", round(time.time() - t0, 2))
         return res
@@ -143,6 +157,8 @@ def main(argv=None):
     ap.add_argument("--jobs", type=int, default=int(os.environ.get("VERIF_JOBS", "16")))
     ap.add_argument("--only", default=None, help="comma-separated condition names")
     ap.add_argument("--no-evidence", action="store_true")
+    ap.add_argument("--fail-fast", action="store_true",
+                    help="stop at the first counterexample that reproduces on the real library (seed evaluation; implies --no-evidence)")
     a = ap.parse_args(argv)
     pid, tier = a.pid, a.tier
     seed = int(os.environ.get("VERIF_SEED", "0") or 0)
@@ -180,6 +196,23 @@ def main(argv=None):
             print("[%s] %-44s %-10s expect=%-7s paths=%-6s cpu=%-7s %s" % (
                 pid, c["name"], r.get("status"), c["expect"], r.get("paths", "-"), r.get("cpu_s", r.get("wall_s", "-")),
                 (r.get("message") or "")[:150].replace("\n", " ")), flush=True)
+            if a.fail_fast and c["expect"] == "confirm" and r.get("status") in ("refuted", "violated") and not _STOP:
+                probe_v, probe_e = [], []
+                rp = (r.get("replay") or {}) if c["kind"] == "smt" else {"fn": c["name"], "module": c["module"], "args": r.get("args")}
+                _handle_cex(pid, tier, c, r, rp, known, probe_v, [], probe_e)
+                if probe_v:
+                    globals()["_STOP"] = True
+                    for f in futs:
+                        f.cancel()
+                    for p in list(_PROCS):
+                        try:
+                            p.kill()
+                        except Exception:
+                            pass
+                    print("VIOLATION property=%s replay=%s" % (pid, probe_v[0]))
+                    print("[%s] tier=%s fail-fast: stopped at %s" % (pid, tier, c["name"]))
+                    sys.stdout.flush()
+                    os._exit(1)
 
     violations, inconclusive, known_hits, harness_errors = [], [], [], []
     stale_known = []
